@@ -4,6 +4,7 @@ import (
 	"crypto/ed25519"
 	"encoding/binary"
 	"fmt"
+	"runtime"
 	"strings"
 	"sync"
 	"sync/atomic"
@@ -274,6 +275,7 @@ func TestVP_C29_Concurrent(t *testing.T) {
 					from := vpSimID(10 + i)
 					ready.Add(1)
 					for ready.Load() < int64(g) {
+						runtime.Gosched() // yield: more spinners than cores must not starve the late ones
 					}
 					if vpC29Deliver(f, c, origin, from) {
 						accepted.Add(1)
